@@ -144,7 +144,12 @@ func (s *Solver) declareVarsOf(t *Term) {
 	if strings.Contains(t.String(), "go_tolower") {
 		if _, ok := s.declared["go_tolower"]; !ok {
 			s.declared["go_tolower"] = sortStr
-			s.send("(declare-fun go_tolower (String) String)")
+			if s.kind == SolverCVC5 {
+				// cvc5 has ASCII case folding as a built-in (inputs are printable ASCII)
+				s.send("(define-fun go_tolower ((x String)) String (str.to_lower x))")
+			} else {
+				s.send("(declare-fun go_tolower (String) String)")
+			}
 		}
 	}
 	if strings.Contains(t.String(), "go_hash64") {
